@@ -105,7 +105,7 @@ def meta(tier):
                 'drawn from start x kind/length options, each placed by its own origin; expected rejection iff two lines of '
                 'length >= 1 share an address, otherwise the image is the union; non-trivial = ranges touch or overlap, or a '
                 'zero-length line lies inside another range; every pair (and every touching triple) is run a second time with '
-                '--no-binary and one of the four pretty-print formats, judged on acceptance only; plus every program of up to 4 (thorough 5) lines over bytes / fills / a macro / zone switches '
+                '--no-binary and one of the four pretty-print formats, or with an image window (-s / -e) that contains none of the lines, judged on acceptance only; plus every program of up to 4 (thorough 5) lines over bytes / fills / a macro / zone switches '
                 'without any origin directive or predefined data (collisions through overlapping zones and code growing into a zone only); states = distinct sets of occupied (address, owner) cells',
         'bounds': {'starts': 'pairs 0..6; triples 0..3 (quick) / 0..6 (thorough)',
                    'kinds': ['.byte x1..3', '.fill 0|1|3', '.zerountil (len 2, len 0)', 'nop', 'ldi', 'jmp', 'm2 (macro of two 12-bit steps)',
@@ -166,14 +166,20 @@ def shard(acc, tier, idx, n):
             if ref.status != 'DC' and (k == 2 or touch):
                 # the same program with --no-binary and a pretty print only: acceptance must not depend on the outputs requested
                 fmt = FORMATS[ctr % len(FORMATS)]
-                case2 = Case(isa_cache[key], R.render_files(files), binary=False, pretty=fmt)
+                if (ctr // len(FORMATS)) % 2 == 0:
+                    case2 = Case(isa_cache[key], R.render_files(files), binary=False, pretty=fmt)
+                    mode = f'--no-binary -p -t {fmt}'
+                else:
+                    # ... or with an image window that lies entirely above (or below) every line of the program
+                    above = (ctr // (2 * len(FORMATS))) % 2 == 0
+                    case2 = Case(isa_cache[key], R.render_files(files), pretty=fmt, start=0x60 if above else 0, end=None if above else 0)
+                    mode = f'-s 96 -p -t {fmt}' if above else f'-e 0 -p -t {fmt}'
                 out2 = acc.run(case2)
                 acc.transition()
-                spec2 = {'expect': ref.status, 'status_only': True, 'image_hex': None, 'why': getattr(ref, 'reason', ''),
-                         'mode': f'--no-binary -p -t {fmt}'}
+                spec2 = {'expect': ref.status, 'status_only': True, 'image_hex': None, 'why': getattr(ref, 'reason', ''), 'mode': mode}
                 msg2 = judge_expect(spec2, [out2])
                 if msg2:
-                    acc.violation([case2], spec2, f'[--no-binary -t {fmt}] {msg2}', [out2])
+                    acc.violation([case2], spec2, f'[{mode}] {msg2}', [out2])
                 acc.judge(clause='no-binary-overlap-rejected' if ref.status == 'REJECT' else 'no-binary-disjoint-accepted',
                           nontrivial_key=(lines, fmt) if touch else None)
             if ref.status != 'DC':
